@@ -150,6 +150,9 @@ func (c *CL) Take() []Out {
 	return out
 }
 
+// SentCount is the number of datagrams the client has written so far.
+func (c *CL) SentCount() int { return len(c.conn.Sent()) }
+
 func (c *CL) ConnClosed() bool { return c.conn.IsClosed() }
 
 // SetResponder installs a reactive gateway: its answers become readable the
